@@ -205,8 +205,12 @@ def join(inputs, on = None, renames = None, defaults = None):
     tbl_def1 = (tbl1, {})
     with_defaults = {k:v for k,v in dictables.items() if k in defaults}
     pairs = [(value, {key : defaults[key]}) for key, value in with_defaults.items()]
-    tbl_def2 = reducer(_join_dictable_with_defaults, pairs, (None, None))
-    tbl_def = _join_dictable_with_defaults(tbl_def1,tbl_def2) 
+    if tbl1 is None:
+        tbl_def = reducer(_join_dictable_with_defaults, pairs, (None, None))
+    else: ## each table with a default is left-joined onto the inner join on its own: two of them may be keyed on different columns
+        tbl_def = tbl_def1
+        for pair in pairs:
+            tbl_def = (_join_dictable_with_defaults((tbl_def[0], {}), pair)[0], {})
     res = tbl_def[0](**non_dictables)
     return res.sort(as_list(on))
 
